@@ -5,9 +5,9 @@
 P=$1; PATCH=$(readlink -f "$2")
 SCR=$(mktemp -d /var/tmp/verif_seed_${P}_XXXXXX)
 trap 'rm -rf "$SCR" /verif/replays/$P' EXIT
-git -C /repo archive HEAD | tar -x -C "$SCR"
+git -C /repo archive ${SEED_REV:-HEAD} | tar -x -C "$SCR"
 ( cd "$SCR" && patch -p1 -s < "$PATCH" ) || { echo "PATCH DOES NOT APPLY"; exit 3; }
 echo "applied $(grep -c '^+++' "$PATCH") file(s) to $SCR"
-cd /verif && ./bin/govc check -prop $P -repo "$SCR" -verif /verif -no-evidence 2>&1 | grep -E "^FAILED|^govc:|KNOWN|^VIOLATION" | cut -c1-260 | tail -6
+cd /verif && ${GOVC:-./bin/govc} check -prop $P -repo "$SCR" -verif /verif -no-evidence 2>&1 | grep -E "^FAILED|^govc:|KNOWN|^VIOLATION" | cut -c1-260 | tail -6
 [ "$P" = "C18" ] && VERIF_REPO="$SCR" VERIF_NO_EVIDENCE=1 tools/bounded_c18.sh quick 2>&1 | grep -E "^bounded|^VIOLATION" | cut -c1-260
 exit 0
